@@ -43,6 +43,27 @@ def _stale(c, name, n, seed=None, replay=None, corr=("corr_guard",)):
         c.cases(name, out, G_IMPORTS, "gcase", corr=list(corr), spec=["spec_guard_calls"], premise=["premise_guard_calls"])
 
 
+P_IMPORTS = ("From Ergo Require Import Common.Base Pool.Model Pool.Cases.\n"
+             "Local Open Scope Z_scope.\n")
+
+
+def _is_pool_replay(path):
+    import json
+    try:
+        return (json.load(open(path)).get("engine") or "").startswith("pool-calls")
+    except Exception:
+        return False
+
+
+def _pool(c, n, replay=None):
+    """requests that reach their callee through an act.Pool (Forward keeps sender and reference; full / dead / respawned
+    workers): a caller is answered by the worker that handled ITS request, no request is handled by two callees"""
+    args = ["run", "-replay", replay] if replay else ["run", "-n", str(n), "-par", "96"]
+    out = c.harness("pool", args, timeout=400 if c.tier == "quick" else 1500)
+    if out:
+        c.cases("pool-calls", out, P_IMPORTS, "pcase", corr=[], spec=["spec_reply_reaches_caller", "spec_one_worker"], premise=["premise_ok"])
+
+
 def run(c):
     c.proofs("theories/Properties/C07.v", clean=(c.tier == "thorough"))
     c.translate(['TieIds', 'TieGuard'])  # T1: formulas / constants regenerated from the source, tie theorems re-checked
@@ -50,9 +71,13 @@ def run(c):
     if c.replay and _is_guard_replay(c.replay):
         _stale(c, "stale-incarnation", 1, replay=c.replay)
         return
+    if c.replay and _is_pool_replay(c.replay):
+        _pool(c, 1, replay=c.replay)
+        return
     _run(c, "calls", n)
     if not c.replay:
         _stale(c, "stale-incarnation", 4 if c.tier == "quick" else 40)
+        _pool(c, 100 if c.tier == "quick" else 1500)
     if c.broken and not c.violations and not c.replay:
         # something no longer checks: spend the extra search budget on the property monitors only
         keep = list(c.broken)
